@@ -109,7 +109,7 @@ func (c *Channels) dispatch(eventName fsm.EventName, channel fsm.StateType) {
 		Timestamp: time.Now(),
 	}
 	log.Debugw("process data transfer listeners", "name", datatransfer.Events[evtCode], "transfer ID", realChannel.TransferID)
-	verifTrace(evt, c.fromInternalChannelState(realChannel))
+	verifTrace(c, evt, c.fromInternalChannelState(realChannel))
 	c.notifier(evt, c.fromInternalChannelState(realChannel))
 }
 
